@@ -62,7 +62,8 @@ func (y *yieldReader) Read(p []byte) (int, error) {
 }
 
 func TestConcurrency(t *testing.T) {
-	ev.Checks(400, 600)
+	// thorough: per shard (x16), built with -race
+	ev.Checks(300, 250)
 
 	rapid.Check(t, func(rt *rapid.T) {
 		dir, err := os.MkdirTemp("", "c09-conc-")
